@@ -80,3 +80,24 @@ func init() {
 			return b
 		}}
 }
+
+func init() {
+	specs["C13"] = &Spec{ID: "C13", Level: "exploration", Parallel: 16,
+		Assumptions: []string{"tz database: the one installed under /usr/share/zoneinfo (fallback: Go's embedded time/tzdata); Go extrapolates a zone's last DST rule to year 9999", "existence of a civil time / of a calendar day in a zone is decided with the UTC->local direction only", hookAssumption + " (GetStatus and Listen clauses)", "two digit system years are taken as 2000..2068"},
+		Plan: func(tier string) []Batch { return zoneBatches(n(tier, 48, 0), "tz", 20*time.Minute) }}
+}
+
+func init() {
+	specs["C14"] = &Spec{ID: "C14", Level: "exploration", Parallel: 16,
+		Assumptions: []string{"in-domain values as the statement and the existing suite define them: cards have non-zero dates, segments are a contiguous prefix of 1..3, control state 1..3, task type 0..12, PIN 0..999999", "a date-time whose civil time + abbreviation does not identify one instant of the zone is compared by civil fields only", "reject side: only the classes the statement lists are asserted", "tz database as installed"},
+		Plan: func(tier string) []Batch {
+			b := same(n(tier, 4, 8), Batch{Mode: "utc-deep", Timeout: 20 * time.Minute})
+			return append(b, zoneBatches(n(tier, 36, 0), "tz", 15*time.Minute)...)
+		}}
+}
+
+func init() {
+	specs["C17"] = &Spec{ID: "C17", Level: "exploration", Parallel: 8,
+		Assumptions: []string{hookAssumption, "door names held in the map returned by DeviceList are not asserted to be insulated (the statement only promises that changing that map does not change where requests go)"},
+		Plan: func(tier string) []Batch { return same(n(tier, 8, 16), Batch{Timeout: 30 * time.Minute}) }}
+}
